@@ -28,6 +28,8 @@ Streams (all end in the same judgement):
                            trusted construction / assignment / deserialization, rejected assignments / construction, ==/str/
                            hash), then the value lattice on another instance (Field objects are shared between instances);
                            random histories also start with such events with probability 0.4
+  directed:undefined-none  `_enable_undefined_value` classes: optional fields holding an explicit None (from the constructor or
+                           assigned) receive rejected and accepted values; `_none_fields` is part of the compared state
   directed:nonatomic-base  calls on which the base type's own method is not failure-atomic (list.sort with a comparison
                            that fails after moves; extend / update from an iterator that fails after valid items)
   directed:field-classes   EVERY exported Field class: assignment of a rejected value over an accepted one
@@ -327,6 +329,13 @@ def make_instance(rnd, cast, ctx, tries=12):
         if hk and hk[0] == "set" and not any(k == hk[1] for k, _ in kw):
             fd = [f for f in fields if f["name"] == hk[1]][0]
             kw.append((fd["name"], G.gen_valid(rnd, fd["field"], ctx.instances)))
+        if getattr(cls, "_enable_undefined_value", False):
+            # explicit None for some optional fields (tracked in _none_fields)
+            req = set(ctx.resolved(cast["name"])["required"])
+            kw = [(k, ("none",)) if (k not in req and rnd.random() < 0.3) else (k, v) for k, v in kw]
+            have = {k for k, _ in kw}
+            kw += [(fd["name"], ("none",)) for fd in fields if fd["name"] not in have and fd["name"] not in req
+                   and rnd.random() < 0.4]
         kw = [(k, scrub(v)) for k, v in kw]
         try:
             return kw, cls(**S.realize_kwargs(kw, ctx))
@@ -375,11 +384,21 @@ def snapshot(x, field_names):
         text = ADDR.sub("0x?", str(x))      # defensive copies of opaque objects print a new address each time
     except Exception as ex:  # noqa
         text = "<str raises %s>" % type(ex).__name__
-    return {"state": canon(reify_state(x)), "reads": canon(reads), "str": text, "ser": canon(ser)}
+    return {"state": canon(reify_state(x)), "reads": canon(reads), "str": text, "ser": canon(ser),
+            "none_fields": none_fields_of(x)}
+
+
+def none_fields_of(x):
+    """The explicit-None markers (`_enable_undefined_value`: None is told apart from "never set")."""
+    nf = x.__dict__.get("_none_fields")
+    try:
+        return sorted(str(n) for n in nf) if nf else []
+    except Exception:  # noqa
+        return ["<unreadable>"]
 
 
 def snapshot_diff(a, b):
-    return [k for k in ("state", "reads", "str", "ser") if a[k] != b[k]]
+    return [k for k in ("state", "reads", "str", "ser", "none_fields") if a.get(k) != b.get(k)]
 
 
 def build_from_state(cls, state, ctx):
@@ -609,6 +628,8 @@ def gen_op(rnd, x, fields, ctx, tables, allow_nested=True, safe_only=False):
             fd = rnd.choice(fields)
             f = fd["field"]
             q = rnd.random()
+            if getattr(x, "_enable_undefined_value", False) and rnd.random() < 0.3:
+                return {"op": "set", "name": fd["name"], "value": ("none",)}
             if q < 0.12 and fd["name"] in state:
                 # a value Python's == cannot tell from the stored one, but of another type somewhere inside
                 y = X.lookalike(rnd, E.reify(state[fd["name"]], S.struct_attrs))
@@ -757,6 +778,7 @@ def run_history(rnd, cast, ctx, tables, nops, mode, ops=None, kwargs=None, safe_
             continue
         after = snapshot(x, fnames)
         post_state = reify_state(x)
+        extra["none_fields"] = after["none_fields"]
         step = {"op": op, "out": out, "extra": extra,
                 "post": None if canon(post_state) == canon(pre_state) else post_state}
         idx = len(h.steps)
@@ -982,6 +1004,8 @@ def gen_cast(rnd, name, ctx):
                 c["hook"] = None
             if ctx.hook_of(b["name"]):
                 c["hook"] = None          # keep the inherited hook
+    if rnd.random() < 0.15:
+        c["undefined"] = True          # _enable_undefined_value: an explicit None is tracked in _none_fields
     names = [fd["name"] for fd in c["fields"]]
     for fd in c["fields"]:
         if kind_of(fd["field"]) and rnd.random() < 0.08:
@@ -1102,6 +1126,17 @@ def emit_history(h, ctx):
         G.emit_table(tbl), h.cast["name"], emit_attrs(h.init), E.lst(["\n   " + s for s in steps]))
 
 
+def emit_classdef_u(ctx, name):
+    """The class description for the model.  Under _enable_undefined_value an assignment of None to an optional
+    field returns without reaching the descriptor, exactly as under _ignore_none (Structure.__setattr__ tests
+    `IGNORE_NONE or ENABLE_UNDEFINED`); what differs is the bookkeeping in _none_fields, which the attribute part of
+    the model does not carry (Struct/NoneFields.v does) and which is compared on the implementation."""
+    text = ctx.emit_classdef(name)
+    if getattr(ctx.classes[name], "_enable_undefined_value", False):
+        text = text.replace("c_ignore_none := false", "c_ignore_none := true")
+    return text
+
+
 def coq_header(ctx, names=None):
     """Class definitions and environment.  names: the classes a shard needs (their ancestors, the classes their
     fields refer to and the base classes are added); None = all."""
@@ -1122,7 +1157,7 @@ def coq_header(ctx, names=None):
         asts = [c for c in ctx.asts if c["name"] in need]
     lines = [HEADER]
     for c in asts:
-        lines.append("Definition cd_%s : classdef := %s." % (c["name"], ctx.emit_classdef(c["name"])))
+        lines.append("Definition cd_%s : classdef := %s." % (c["name"], emit_classdef_u(ctx, c["name"])))
     lines.append("Definition env0 : env := %s." % E.lst(["cd_%s" % c["name"] for c in asts]))
     return "\n".join(lines) + "\n"
 
@@ -1891,6 +1926,64 @@ def directed_multi_instance(ctx, tables, rep):
     return hs
 
 
+def undefined_class(hook):
+    I = {"t": "num", "k": "Integer", "s": "Any"}
+    nosz = [None, None]
+    fields = [("i", I), ("s", {"t": "str", "max": 3}), ("b", {"t": "bool"}),
+              ("a", {"t": "seqeach", "k": "list", "item": I, "sz": [1, 3], "uniq": False}),
+              ("d", {"t": "seqeach", "k": "deque", "item": {"t": "str"}, "sz": nosz, "uniq": True}),
+              ("m", {"t": "mapkv", "kf": {"t": "str"}, "vf": I, "sz": nosz}),
+              ("al", {"t": "allof", "fs": [I, {"t": "num", "k": "Number", "s": "Any", "max": ("int", 10)}]}),
+              ("ao", {"t": "anyof", "fs": [I, {"t": "str", "max": 2}]}),
+              ("e", {"t": "enumcls", "cls": "Color", "members": ["RED", "GREEN", "BLUE"]}),
+              ("t", {"t": "tuple", "items": [I, {"t": "str"}], "uniq": False}),
+              ("p", I), ("q", I), ("r", I)]
+    cast = {"name": "WU" + ("H" if hook else ""), "fields": [{"name": n, "field": f} for n, f in fields], "required": ["r"],
+            "additional": False, "undefined": True}
+    if hook:
+        cast["hook"] = ["le", "p", "q"]
+    return cast
+
+
+def directed_undefined(ctx, tables, rep):
+    """`_enable_undefined_value = True`: an explicit None of an optional field is a state of its own (getattr gives
+    None, not Undefined; str / == / serialization show it), kept in `_none_fields`.  Every optional field holding an
+    explicit None (from the constructor, or assigned) receives every value of the lattice: a rejected value must leave
+    the marker as it was, an accepted one removes it; then None again.  Also: a hook failure on a field that held an
+    explicit None, and the same on instances from deepcopy / pickle."""
+    hs = []
+    for hook in (False, True):
+        cast = undefined_class(hook)
+        if cast["name"] not in ctx.classes and not add_class(ctx, cast):
+            continue
+        cast = ctx.ast(cast["name"])
+        names = [fd["name"] for fd in cast["fields"] if fd["name"] != "r"]
+        start_none = [("r", ("int", 1))] + [(n, ("none",)) for n in names]
+        start_unset = [("r", ("int", 1))]
+        if hook:
+            start_none = [("r", ("int", 1)), ("q", ("int", 5))] + [(n, ("none",)) for n in names if n != "q"]
+            start_unset = [("r", ("int", 1)), ("q", ("int", 5))]
+        ops = []
+        for n in names:
+            if hook and n == "q":
+                continue
+            for y in MI_LATTICE + [("str", "abcd"), ("list", [("str", "x")]), ("dict", [(("int", 1), ("int", 2))]), ("int", 9)]:
+                ops.append({"op": "set", "name": n, "value": y})
+                ops.append({"op": "set", "name": n, "value": ("none",)})
+        for origin in ("ctor", "deepcopy", "pickle"):
+            h = run_history(None, cast, ctx, tables, len(ops), "reread", ops=ops, kwargs=start_none, origin=origin, siblings=[])
+            if h is not None and h.steps:
+                rep.count("directed:undefined-none", 0, (cast["name"], origin, "ctor-none"))
+                hs.append(h)
+        # the markers set by assignment instead of construction
+        ops2 = [{"op": "set", "name": n, "value": ("none",)} for n in names if not (hook and n == "q")] + ops
+        h = run_history(None, cast, ctx, tables, len(ops2), "reread", ops=ops2, kwargs=start_unset, origin="ctor", siblings=[])
+        if h is not None and h.steps:
+            rep.count("directed:undefined-none", 0, (cast["name"], "assigned-none"))
+            hs.append(h)
+    return hs
+
+
 def nonatomic_casts():
     I = {"t": "num", "k": "Integer", "s": "Any"}
     Sx = {"t": "str"}
@@ -2028,6 +2121,40 @@ def replay_obj(h, upto, ctx):
             "python": "\n".join(lines) + "\n"}
 
 
+def field_alone_rejects(h, k, ctx):
+    """A step on which the implementation raised TypeError/ValueError and left the instance unchanged while the model
+    predicted success: does the FIELD ALONE (a fresh one-field class on the real library) reject the value that was
+    handed to it?  Then the mutation path did exactly what the field does, no clause of C03 fails (a rejection that
+    changes nothing never does), and the disagreement is between the field model and the field -- the subject of
+    C01/C02 (there: documented rules vs implementation, e.g. ImmutableSet re-checking minItems after conversion),
+    counted in the evidence, not a failure of C03's correspondence."""
+    s = h.steps[k]
+    if s["out"][0] != "raise" or s["out"][1] not in ("TypeError", "ValueError") or s["post"] is not None:
+        return False
+    op = s["op"]
+    if op["op"] == "set":
+        value = op["value"]
+    elif op["op"] == "call" and (s["extra"].get("base") or ("", ""))[0] == "ok":
+        value = s["extra"]["base"][1]
+    else:
+        return False
+    fc = field_cast(ctx.all_fields(h.cast["name"]), op["name"])
+    if fc is None:
+        return False
+    try:
+        T = S.single_field_class(fc, ctx)
+        v = G.unreify(value, ctx.classes)
+    except Exception:  # noqa
+        return False
+    try:
+        T(f=v)
+    except (TypeError, ValueError):
+        return True
+    except Exception:  # noqa
+        return False
+    return False
+
+
 def shrunk_replay(h, j, ctx, tables, done):
     """Replay object for the finding at step j of h.  For a long enumerated history the failing operation is tried
     alone (same start, same origin, same sibling events); if it does the same thing there -- same outcome, same
@@ -2040,7 +2167,10 @@ def shrunk_replay(h, j, ctx, tables, done):
             try:
                 h2 = run_history(None, h.cast, ctx, tables, 1, "reread", ops=[s["op"]], kwargs=h.kwargs, origin=h.origin,
                                  siblings=h.siblings)
-                if h2 is not None and len(h2.steps) == 1 and h2.steps[0]["out"] == s["out"]:
+                pykeys = [k for jj, k, _ in h.py_findings if jj == j and not k.startswith("C03/stored-normal-form")
+                          and "invalid-after-success" not in k and "hook-not-run" not in k]
+                reproduced = not pykeys or any(k in pykeys for _, k, _ in (h2.py_findings if h2 else []))
+                if h2 is not None and len(h2.steps) == 1 and h2.steps[0]["out"] == s["out"] and reproduced:
                     name = s["op"]["name"]
                     if canon(dict(post_state_at(h2, 0)).get(name)) == canon(dict(post_state_at(h, j)).get(name)):
                         return replay_obj(h2, 0, ctx)
@@ -2142,7 +2272,9 @@ def replay(obj):
             bad += 1
         print("step %d   : %-40s -> %-22s state: %s   [%s]" % (
             i, op_src(s["op"]), "returned" if s["out"][0] == "ok" else "raised " + s["out"][1],
-            ", ".join("%s=%s" % (k, G.py_src(v)) for k, v in post), verdict))
+            ", ".join("%s=%s" % (k, G.py_src(v)) for k, v in post) +
+            ("; _none_fields=%s" % s["extra"]["none_fields"] if s["extra"].get("none_fields") or
+             obj["class"].get("undefined") else ""), verdict))
         state = post
     if obj.get("model_vs_impl"):
         print("model vs implementation:", obj["model_vs_impl"])
@@ -2220,6 +2352,9 @@ def run(rep, tier):
     for h in directed_multi_instance(ctx, tables, rep):
         all_histories.append(("directed:multi-instance", h))
     lap("directed:multi-instance")
+    for h in directed_undefined(ctx, tables, rep):
+        all_histories.append(("directed:undefined-none", h))
+    lap("directed:undefined-none")
     by_entry = {}
     for _, h in all_histories:
         if h.py_findings and h.steps and h.steps[0]["op"]["op"] == "call":
@@ -2354,10 +2489,19 @@ def run(rep, tier):
                        "%d histories, %d steps; %d histories with a failing step (reported above as findings)" % (len(hs), nsteps, nsp))
         mism = {hi: k for hi, k in r["mismatch"].items() if hi not in start_bad}
         unexplained = {hi: k for hi, k in mism.items() if not any(j == k for j, _, _ in hs[hi].py_findings)}
+        field_level = {hi: k for hi, k in unexplained.items() if field_alone_rejects(hs[hi], k, ctx)}
+        unexplained = {hi: k for hi, k in unexplained.items() if hi not in field_level}
+        if field_level:
+            hi0 = sorted(field_level)[0]
+            rep.stat("history", "mismatch:field-alone-rejects-what-the-field-model-admits", len(field_level))
+            rep.cov["streams"].setdefault("history", {"evaluations": 0})["field_level_disagreement_example"] = \
+                op_src(hs[hi0].steps[field_level[hi0]]["op"])
         rep.obligation("correspondence:mstep", not unexplained,
-                       "%d steps in %d histories; %d histories where model and implementation differ on a step, %d of them on "
-                       "a step that is itself reported as a finding (a clause of C03 fails there: concrete input above)" % (
-                           nsteps, len(hs), len(mism), len(mism) - len(unexplained)))
+                       "%d steps in %d histories; %d histories where model and implementation differ on a step: %d on a step that "
+                       "is itself reported as a finding (a clause of C03 fails there: concrete input above), %d where the field "
+                       "alone rejects a value the field model admits (raise, nothing changed: C02's subject), %d unexplained" % (
+                           nsteps, len(hs), len(mism), len(mism) - len(unexplained) - len(field_level), len(field_level),
+                           len(unexplained)))
         rep.obligation("theorem-instance:C03_history-on-observed", not r["contradicted"],
                        "%d histories satisfy the hypotheses; %d contradict the conclusion" % (len(r["hyps"]), len(r["contradicted"])))
         # a disagreement on a step where a clause of C03 fails is reported as that finding (concrete input);
